@@ -350,6 +350,81 @@ def appended_in_loop(it, loop):
     return res
 
 
+NON_INJECTIVE_STR_METHODS = {
+    'lower', 'upper', 'casefold', 'swapcase', 'title', 'capitalize',
+    'strip', 'lstrip', 'rstrip', 'split', 'partition', 'replace',
+    'translate', 'expandtabs', 'center', 'ljust', 'rjust', 'zfill',
+    'startswith', 'endswith', 'find', 'count', 'isalpha', 'isdigit',
+}
+
+
+def sort_key_orders_by_name(ctx, fi, loop_node):
+    """sorted(..., key=K) in the entry loop: K must map an item to its
+    name (item[0]).  -> (True | False | None, text)"""
+    import ast as _ast
+    from . import interp as _I
+    call = loop_node.iter if isinstance(loop_node, _ast.For) else None
+    kw = None
+    for n in _ast.walk(call) if call is not None else ():
+        if isinstance(n, _ast.Call) and isinstance(n.func, _ast.Name) and \
+                n.func.id == 'sorted':
+            for k in n.keywords:
+                if k.arg == 'key':
+                    kw = k.value
+    if kw is None:
+        return None, 'the key argument of sorted() was not found'
+    prog = ctx.prog
+    item = Sym('param', 'item')
+    res = None
+    if isinstance(kw, _ast.Call):
+        try:
+            t = prog.resolve_static(fi.module, kw.func, fi.module)
+        except Exception:
+            t = None
+        if isinstance(t, tuple) and t and t[0] == 'ext' and \
+                t[1] == 'operator.itemgetter' and len(kw.args) == 1 and \
+                isinstance(kw.args[0], _ast.Constant) and \
+                kw.args[0].value == 0:
+            return True, 'key = operator.itemgetter(0): the name itself'
+        return None, 'key = %s is not a function the analysis can run' % \
+            _ast.unparse(kw)[:60]
+    target = None
+    if isinstance(kw, _ast.Lambda):
+        target = prog.lambdas.get(id(kw))
+    else:
+        try:
+            t = prog.resolve_static(fi.module, kw, fi.module)
+        except Exception:
+            t = None
+        if isinstance(t, _I.FuncInfo):
+            target = t
+    if target is None:
+        return None, 'key = %s is not a function the analysis can run' % \
+            _ast.unparse(kw)[:60]
+    it = ctx.interp()
+    try:
+        outs = it.run_function(target, [item], {}, ctx.new_state())
+    except Exception as err:
+        return None, 'key function could not be analysed: %s' % err
+    rets = [o for o in outs if o.kind == 'return']
+    if len(rets) != 1:
+        return None, 'key function has %d return paths' % len(rets)
+    res = rets[0].value
+    name = Sym('index', item, 0)
+    if res is name or res == name:
+        return True, 'key(item) = item[0]: the name itself'
+    bad = sorted({t.args[1] for t in T.subterms(res)
+                  if t.op == 'method' and isinstance(t.args[1], str) and
+                  t.args[1] in NON_INJECTIVE_STR_METHODS} |
+                 {t.op for t in T.subterms(res) if t.op == 'len'})
+    if bad:
+        return False, 'key(item) = %s: distinct names can compare equal ' \
+            '(%s), so ties keep insertion order and the order is not ' \
+            'ascending by name' % (T.show(res)[:80], '/'.join(bad))
+    return None, 'key(item) = %s: not recognised as order-preserving' % \
+        T.show(res)[:80]
+
+
 def check_table_entry_order(chk, ctx, rule):
     fi, P, loops, it, outs = table_loop(ctx)
     site = '%s:%d' % (fi.module.relpath, fi.node.lineno)
@@ -376,6 +451,15 @@ def check_table_entry_order(chk, ctx, rule):
     chk.ob(rule, 'encode.field_table iteration', okk and not rev,
            'entries iterated as %s' % T.show(iterable)[:100],
            detail={'expected': 'sorted(value.items())'}, site=site)
+    if okk and any(k == 'key' for k, _ in iterable.args[1]):
+        verdict, why = sort_key_orders_by_name(ctx, fi, node)
+        if verdict is None:
+            chk.undecide(rule, 'encode.field_table sort key', why)
+        else:
+            chk.ob(rule, 'encode.field_table sort key', verdict, why,
+                   detail={'expected': 'entries ordered by the field name '
+                           'itself (ascending, no two names compare equal)'},
+                   site=site)
     app = appended_in_loop(it, loop)
     shapes = []
     for lid, runs in app.items():
